@@ -133,9 +133,14 @@ def run(name, tier="quick"):
         rc, out = sh(["git", "-C", REPO, "apply", os.path.join(d, "patch.diff")])
     assert rc == 0, out
     t0 = time.time()
+    evp = os.path.join(VERIF, "evidence", pid + ".json")
+    saved = open(evp).read() if os.path.exists(evp) else None
     try:
         rc, out = sh([os.path.join(VERIF, "check"), pid, tier], cwd=VERIF, timeout=7200)
     finally:
+        # the evidence file must describe the unchanged tree: put the previous one back
+        if saved is not None:
+            open(evp, "w").write(saved)
         sh(["git", "-C", REPO, "reset", "-q", "HEAD", "--", "."])
         sh(["git", "-C", REPO, "checkout", "--", "."])
     viol = [l for l in out.splitlines() if l.startswith("VIOLATION")]
